@@ -387,6 +387,10 @@ func runC37(c *fw.Ctx) {
 	fails.Report(c)
 
 	t0 := c.Elapsed()
+	if c.Expired() {
+		c.Incomplete("deadline reached before the model-vs-git conformance replay")
+		return
+	}
 	c37Conformance(c, u, confN, maxPar)
 	c.Extra("conformance_seconds", int((c.Elapsed() - t0).Seconds()))
 }
